@@ -9,7 +9,9 @@ RouteOwns, LevelsFromHash; the as-built deviation "SliceBeyondHash" must violate
 Binding (A): harness/cmd/naming evaluates generated names (ASCII, multi-byte UTF-8, control bytes, empty
 parts, embedded '/', long, mined names whose hash has leading zero digits) x configurations on the REAL
 server name package, SDK name package and a really connected SDK client (TLS gRPC heartbeat servers on
-127.0.0.1), with fresh name objects per call, and logs both hashes from its own xxhash implementation.
+127.0.0.1), through EVERY construction route of the name (plain chain, prefixes asked before they are extended,
+a shared realm-level prefix, a re-used builder object, Load of the string form, the same object asked twice -
+Naming!Routes), and logs both hashes from its own xxhash implementation; all routes must give the one answer.
 TLC validates every line against Trace_Naming.  Lines whose path computation panicked are validated
 separately: the strict spec must reject them, and only if the as-built spec (Dev = SliceBeyondHash)
 accepts them all is it the known finding D_C20_SliceBeyondHash.
@@ -237,6 +239,7 @@ def run(ctx):
         alt("level_digit", lambda e: e["loc"][0]["levels"][0].__setitem__(0, (e["loc"][0]["levels"][0][0] + 1) % 16))
         alt("leaf_dropped_digit", lambda e: e["loc"][0].__setitem__("leaf", e["loc"][0]["leaf"][:-1]))
         alt("hash_input", lambda e: e["hp"].__setitem__(15, (e["hp"][15] + 1) % 16))
+        alt("construction_route_missing", lambda e: e.__setitem__("routes", [x for x in e["routes"] if x != "sdk:shared-prefix"]))
         for k, b in muts.items():
             p = write("selftest-%s.ndjson" % k, [json.dumps(x) for x in b])
             okm, _ = ctx.validate_trace("Trace_Naming", "Trace_Naming", p, name="selftest-" + k)
